@@ -628,6 +628,13 @@ impl<F: Read + Write + Seek> Package<F> {
                         name
                     );
                 }
+                if !column.has_storable_enum_values() {
+                    invalid_input!(
+                        "Column {:?} has enum values that cannot be stored \
+                         (a value contains ';', or the only value is empty)",
+                        name
+                    );
+                }
                 if column_names.contains(name) {
                     invalid_input!(
                         "Cannot create a table with multiple columns with the \
